@@ -48,6 +48,9 @@ def host_namespace_in_range(namespace) -> bool:
 
 def host_values_in_range(trace) -> bool:
     for obs in trace.channels.get("ser", []):
+        if "None" in str(obs.value):
+            # a helper that falls off its end (a shrinking artefact): None is not a value of the subset
+            return False
         for tok in _NUM.findall(str(obs.value)):
             try:
                 if abs(float(tok)) > INT_LIMIT:
@@ -774,10 +777,16 @@ class E2Meta(ScriptEngine):
         int_names: List[Tuple[str, int]] = []  # int-valued names of P' and the value they are bound to
         dead: List[str] = []   # dead mutations for P'
 
-        def lit(value, kind="int"):
-            """Returns (text in P, text in P')."""
+        def lit(value, kind="int", force=False):
+            """Returns (text in P, text in P'); ``force``: always through a name that is re-assigned elsewhere."""
 
             text = repr(value)
+            if force:
+                nm = name()
+                binds.append(f"{nm} = {text}")
+                int_names.append((nm, value))
+                dead.append(r.choice([f"{nm} = {nm} + 1", f"{nm} += 3"]))
+                return text, nm
             if kind in ("int", "pin") and isinstance(value, int) and r.random() < 0.4:
                 from dst.gen.constexpr import const_int_expr
 
@@ -837,7 +846,7 @@ class E2Meta(ScriptEngine):
         body_loop: List[Tuple[str, str]] = []
 
         def emit_op(target_list):
-            k = r.choice(["sleep", "blink", "bright", "fade", "flash", "servo", "len_s", "len_l", "glyph", "lcdw", "beep", "range", "measure", "globalexpr"])
+            k = r.choice(["sleep", "blink", "bright", "fade", "flash", "servo", "len_s", "len_l", "glyph", "lcdw", "beep", "range", "measure", "globalexpr", "wrapped", "wrapped"])
             fmt, pairs = None, ()
             if k == "sleep":
                 fmt, pairs = "sleep({})", (lit(r.choice([0, 1, 7, 25])),)
@@ -869,6 +878,15 @@ class E2Meta(ScriptEngine):
                 return
             elif k == "measure" and use_us:
                 target_list.append(("mon.write(us.measure_distance())",) * 2)
+                return
+            elif k == "wrapped":
+                # the value sits in a later argument / inside a builtin or a conditional expression: "name-free" must
+                # be decided over the whole expression
+                v = lit(r.choice([2, 7, 25, 60]), force=r.random() < 0.7)
+                c = r.choice([1, 3, 40, 100])
+                form = r.choice(["max({c}, {v})", "min({c}, {v})", "max({v}, {c})", "abs({v} - {c})", "int({v} * 1.5)", "({v} if {v} > {c} else {c})", "max({c}, {c}, {v})", "min(max({c}, {v}), 200)"])
+                site = r.choice(["sleep({})", "led.set_brightness({})", "sv.write({})", "mon.write({})"])
+                target_list.append((site.format(form.format(c=c, v=v[0])), site.format(form.format(c=c, v=v[1]))))
                 return
             elif k == "globalexpr":
                 a = lit(r.randint(1, 20))
@@ -954,7 +972,7 @@ class E2Meta(ScriptEngine):
         q_text += ["    " + l for l in loop_q] + ["    " + l for l in dead_block(dead)] + ['    mon.write("tick")']
         script_p = "\n".join(p_text) + "\n"
         script_q = "\n".join(q_text) + "\n"
-        world = random_world(rng, script_q, r.choice([0, 1, 2, 3]))
+        world = random_world(rng, script_q, r.choice([1, 2, 3, 3]) if live else r.choice([0, 1, 2, 3]))
         world["pulse"] = {"23": [r.choice([0, 800, 5000]) for _ in range(12)]}
         if live:
             # pins and counts must stay legal after the live increments: only the P' vs host comparison applies
